@@ -3,7 +3,7 @@ CONSTANTS
   EncSet = {"identity", "gzip", "br", "zstd", "deflate", "snappy"}
   Sides = {"D", "C"}
   Grammars = {"free", "pool", "tracer", "raw"}
-  Discipline = "full"
+  Discipline = "first"
   MaxOps = 0
   MaxRd = 2
   MaxW = 2
